@@ -35,6 +35,15 @@ pub fn worker_pp(spec_path: &str) -> i32 {
         Some(v) => v,
         None => return 2,
     };
+    // {"parse_text": …}: strict parse_sv_str on this (main) thread, with whatever stack the process was given
+    if let Some(t) = spec["parse_text"].as_str() {
+        let v = match sv::parse_text(sv::Grammar::Sv, t, false) {
+            Ok(_) => json!({"ok": true}),
+            Err(e) => json!({"ok": false, "error": sv::err_kind(&e)}),
+        };
+        println!("{}", v);
+        return 0;
+    }
     let top_path = spec["top_path"].as_str().unwrap_or("top.sv");
     let incs: Vec<PathBuf> = spec["include_paths"].as_array().map(|a| a.iter().filter_map(|x| x.as_str().map(PathBuf::from)).collect()).unwrap_or_default();
     let ignore = spec["ignore_include"].as_bool().unwrap_or(false);
